@@ -33,16 +33,19 @@ func alphabet(keys []string, thorough bool) []kvh.Op {
 			ops = append(ops, kvh.Op{Kind: "put", Key: k, Val: 2, Exp: e})
 		}
 		ops = append(ops, kvh.Op{Kind: "cas", Key: k, Val: 3, Exp: 0, Ver: kvh.VCurrent}, kvh.Op{Kind: "cas", Key: k, Val: 3, Exp: 1, Ver: kvh.VCurrent})
+		ops = append(ops, kvh.Op{Kind: "cas", Key: k, Val: 3, Exp: 0, Ver: kvh.VStale}, kvh.Op{Kind: "cas", Key: k, Val: 3, Exp: 0, Ver: kvh.VNever})
 		ops = append(ops, kvh.Op{Kind: "get", Key: k}, kvh.Op{Kind: "delete", Key: k})
 		ops = append(ops, kvh.Op{Kind: "wait", Key: k, Ver: kvh.VCurrent})
 		if thorough {
-			ops = append(ops, kvh.Op{Kind: "wait", Key: k, Ver: kvh.VNever}, kvh.Op{Kind: "cas", Key: k, Val: 3, Exp: 2, Ver: kvh.VStale})
+			ops = append(ops, kvh.Op{Kind: "wait", Key: k, Ver: kvh.VNever}, kvh.Op{Kind: "cas", Key: k, Val: 3, Exp: 2, Ver: kvh.VEmpty})
+			ops = append(ops, kvh.Op{Kind: "putmany", Keys: []string{k, k}, Vals: []int{2, 3}, Exps: []int{1, 0}})
 		}
 	}
 	a, b := keys[0], keys[len(keys)-1]
 	ops = append(ops,
 		kvh.Op{Kind: "putmany", Keys: []string{a, b}, Vals: []int{2, 2}, Exps: []int{1, 0}},
 		kvh.Op{Kind: "putmany", Keys: []string{a, b}, Vals: []int{3, 3}, Exps: []int{2, 1}},
+		kvh.Op{Kind: "putmany", Keys: []string{a, a}, Vals: []int{2, 3}, Exps: []int{1, 0}},
 		kvh.Op{Kind: "getmany", Keys: []string{a, b}},
 		kvh.Op{Kind: "list", Pat: "*"},
 		kvh.Op{Kind: "clock", Exp: 0}, kvh.Op{Kind: "clock", Exp: 1},
